@@ -132,6 +132,8 @@ pub enum Sender
 {
     Top(u32),
     Run(RunId),
+    /// applied directly (not queued) from inside the body of an exclusive run
+    Mid(RunId),
 }
 
 /// What an op resolved to when it was queued.
@@ -301,6 +303,8 @@ pub struct Case
     /// payload id -> pool entity whose auto-despawn signal the payload owns
     pub carry: HashMap<u32, Entity>,
     pub despawner: Option<AutoDespawner>,
+    /// dedicated system command that exclusive bodies run directly (`SystemCommand::apply(world)`) mid-body
+    pub mid_probe: Option<(SysUid, Entity)>,
 }
 
 thread_local!
